@@ -158,6 +158,114 @@ theorem spacesThenDashes_append_nodash (x t : Bytes) (ht : (45 : UInt8) ∉ t) :
   | a :: b :: r, hz =>
     rw [spacesThenDashes_sp n _ (by simpa using hz)]; simp [List.isPrefixOf]
 
+/-! ### `spacesThenComment`: the alternation `(--|//)` -/
+
+/-- the comment markers of the alternation `(--|//)` are `[c, c]` for these two bytes -/
+def Mk (c : UInt8) : Prop := c = 45 ∨ c = 47
+
+theorem Mk.ne32 {c : UInt8} (h : Mk c) : c ≠ 32 := by rcases h with rfl | rfl <;> decide
+theorem Mk.ne10 {c : UInt8} (h : Mk c) : c ≠ 10 := by rcases h with rfl | rfl <;> decide
+theorem Mk.ne13 {c : UInt8} (h : Mk c) : c ≠ 13 := by rcases h with rfl | rfl <;> decide
+theorem Mk.ne9 {c : UInt8} (h : Mk c) : c ≠ 9 := by rcases h with rfl | rfl <;> decide
+
+/-- contains neither `-` nor `/` -/
+def NoMark (t : Bytes) : Prop := (45 : UInt8) ∉ t ∧ (47 : UInt8) ∉ t
+
+theorem NoMark.not_mem {t : Bytes} (h : NoMark t) {c : UInt8} (hc : Mk c) : c ∉ t := by
+  rcases hc with rfl | rfl
+  · exact h.1
+  · exact h.2
+
+theorem isPrefixOf_slashes (z : Bytes) : [47, 47].isPrefixOf z = true ↔ ∃ r, z = 47 :: 47 :: r := by
+  match z with
+  | [] => simp
+  | [a] => simp [List.isPrefixOf]
+  | a :: b :: r =>
+    simp only [List.isPrefixOf, Bool.and_true, Bool.and_eq_true, beq_iff_eq]
+    constructor
+    · rintro ⟨rfl, rfl⟩; exact ⟨r, rfl⟩
+    · rintro ⟨r', h⟩; simp at h; exact ⟨h.1.symm, h.2.1.symm⟩
+
+/-- normal form: on `<n spaces> ++ z` with `z` not starting with a space -/
+theorem spacesThenComment_sp (n : Nat) (z : Bytes) (hz : z.head? ≠ some 32) :
+    spacesThenComment (List.replicate n 32 ++ z) =
+      if [45, 45].isPrefixOf z then some (n, [45, 45]) else if [47, 47].isPrefixOf z then some (n, [47, 47]) else none := by
+  unfold spacesThenComment
+  simp only [spanLen_sp n z hz, drop_sp]
+
+theorem spacesThenComment_comment (n : Nat) (c : UInt8) (r : Bytes) (hc : Mk c) :
+    spacesThenComment (List.replicate n 32 ++ c :: c :: r) = some (n, [c, c]) := by
+  rcases hc with rfl | rfl
+  · rw [spacesThenComment_sp n _ (by simp)]; simp
+  · rw [spacesThenComment_sp n _ (by simp)]; simp [List.isPrefixOf]
+
+theorem spacesThenComment_some (s : Bytes) (n : Nat) (m : Bytes) (h : spacesThenComment s = some (n, m)) :
+    ∃ c r, Mk c ∧ m = [c, c] ∧ s = List.replicate n 32 ++ c :: c :: r := by
+  obtain ⟨k, z, rfl, hz⟩ := sp_decomp s
+  rw [spacesThenComment_sp k z hz] at h
+  split at h
+  · rename_i hp
+    obtain ⟨r, rfl⟩ := (isPrefixOf_dashes z).mp hp
+    simp at h; obtain ⟨rfl, rfl⟩ := h; exact ⟨45, r, Or.inl rfl, rfl, rfl⟩
+  · split at h
+    · rename_i hp
+      obtain ⟨r, rfl⟩ := (isPrefixOf_slashes z).mp hp
+      simp at h; obtain ⟨rfl, rfl⟩ := h; exact ⟨47, r, Or.inr rfl, rfl, rfl⟩
+    · simp at h
+
+theorem spacesThenComment_nil : spacesThenComment [] = none := by
+  have := spacesThenComment_sp 0 [] (by simp)
+  simpa using this
+
+/-- what follows the first line feed does not matter -/
+theorem spacesThenComment_append_lf (x t : Bytes) : spacesThenComment (x ++ 10 :: t) = spacesThenComment x := by
+  obtain ⟨n, z, rfl, hz⟩ := sp_decomp x
+  rw [List.append_assoc, spacesThenComment_sp n z hz]
+  match z, hz with
+  | [], _ => rw [List.nil_append, spacesThenComment_sp n _ (by simp)]; simp [List.isPrefixOf]
+  | [a], hz =>
+    rw [spacesThenComment_sp n _ (by simpa using hz)]; simp [List.isPrefixOf]
+  | a :: b :: r, hz =>
+    rw [spacesThenComment_sp n _ (by simpa using hz)]; simp [List.isPrefixOf]
+
+/-- an appended string without `-` and `/` does not matter -/
+theorem spacesThenComment_append_nomark (x t : Bytes) (ht : NoMark t) :
+    spacesThenComment (x ++ t) = spacesThenComment x := by
+  obtain ⟨n, z, rfl, hz⟩ := sp_decomp x
+  rw [List.append_assoc, spacesThenComment_sp n z hz]
+  match z, hz with
+  | [], _ =>
+    obtain ⟨m, z', rfl, hz'⟩ := sp_decomp t
+    rw [List.nil_append, ← List.append_assoc, List.replicate_append_replicate, spacesThenComment_sp _ z' hz']
+    have h1 : [45, 45].isPrefixOf z' = false := by
+      cases hp : [45, 45].isPrefixOf z' with
+      | false => rfl
+      | true => obtain ⟨r, rfl⟩ := (isPrefixOf_dashes z').mp hp; exact absurd (by simp) ht.1
+    have h2 : [47, 47].isPrefixOf z' = false := by
+      cases hp : [47, 47].isPrefixOf z' with
+      | false => rfl
+      | true => obtain ⟨r, rfl⟩ := (isPrefixOf_slashes z').mp hp; exact absurd (by simp) ht.2
+    simp [h1, h2, List.isPrefixOf]
+  | [a], hz =>
+    rw [spacesThenComment_sp n _ (by simpa using hz)]
+    cases t with
+    | nil => simp
+    | cons b t =>
+      have h45 : b ≠ 45 := fun h => ht.1 (by simp [h])
+      have h47 : b ≠ 47 := fun h => ht.2 (by simp [h])
+      have h45' : ((45 : UInt8) == b) = false := by simpa using Ne.symm h45
+      have h47' : ((47 : UInt8) == b) = false := by simpa using Ne.symm h47
+      simp [List.isPrefixOf, h45', h47']
+  | a :: b :: r, hz =>
+    rw [spacesThenComment_sp n _ (by simpa using hz)]; simp [List.isPrefixOf]
+
+theorem spacesThenComment_none_dashes (s : Bytes) (h : spacesThenComment s = none) : spacesThenDashes s = none := by
+  cases hd : spacesThenDashes s with
+  | none => rfl
+  | some n =>
+    obtain ⟨r, rfl⟩ := spacesThenDashes_some s n hd
+    rw [spacesThenComment_comment n 45 r (Or.inl rfl)] at h; simp at h
+
 /-- induction over a string cut into `<spaces> <non-space byte>` pieces -/
 theorem sp_induction {motive : Bytes → Prop} (nil : ∀ n, motive (List.replicate n 32))
     (cons : ∀ n c z, c ≠ 32 → motive z → motive (List.replicate n 32 ++ c :: z)) : ∀ s, motive s := by
@@ -482,7 +590,7 @@ def normBreaks (s : Bytes) : Bytes := subCR (subLFCR (subCRLF (subTab s)))
 
 /-! ### `subStartComment` -/
 
-theorem drop_comment (n : Nat) (r : Bytes) : (List.replicate n (32 : UInt8) ++ 45 :: 45 :: r).drop (n + 2) = r := by
+theorem drop_comment (n : Nat) (a b : UInt8) (r : Bytes) : (List.replicate n (32 : UInt8) ++ a :: b :: r).drop (n + 2) = r := by
   induction n with
   | zero => rfl
   | succ n ih => simpa [List.replicate_succ] using ih
@@ -539,6 +647,53 @@ theorem NoSpLF_subStartComment (k : Nat) (s : Bytes) (h : NoSpLF s) :
     rw [NoSpLF_sp_append _ _ (by simp)]
     exact h
 
+/-! ### `subStartAnyComment` -/
+
+theorem subStartAnyComment_comment (n : Nat) (c : UInt8) (r : Bytes) (hc : Mk c) :
+    subStartAnyComment (List.replicate n 32 ++ c :: c :: r) = c :: c :: r := by
+  unfold subStartAnyComment
+  rw [spacesThenComment_comment n c r hc]
+  simp only [drop_sp]
+
+theorem subStartAnyComment_none (s : Bytes) (h : spacesThenComment s = none) : subStartAnyComment s = s := by
+  unfold subStartAnyComment; rw [h]
+
+theorem subStartAnyComment_cases (s : Bytes) :
+    (spacesThenComment s = none ∧ subStartAnyComment s = s) ∨
+    ∃ n c r, Mk c ∧ s = List.replicate n 32 ++ c :: c :: r ∧ subStartAnyComment s = c :: c :: r := by
+  cases h : spacesThenComment s with
+  | none => exact Or.inl ⟨rfl, subStartAnyComment_none s h⟩
+  | some p =>
+    obtain ⟨n, m⟩ := p
+    obtain ⟨c, r, hc, _, rfl⟩ := spacesThenComment_some s n m h
+    exact Or.inr ⟨n, c, r, hc, rfl, subStartAnyComment_comment n c r hc⟩
+
+/-- only the first line is rewritten -/
+theorem subStartAnyComment_append_lf (x t : Bytes) :
+    subStartAnyComment (x ++ 10 :: t) = subStartAnyComment x ++ 10 :: t := by
+  rcases subStartAnyComment_cases x with ⟨h, e⟩ | ⟨n, c, r, hc, rfl, e⟩
+  · rw [e, subStartAnyComment_none]; rw [spacesThenComment_append_lf, h]
+  · rw [e]; simp only [List.append_assoc, List.cons_append]; rw [subStartAnyComment_comment _ _ _ hc]
+
+theorem mem_subStartAnyComment (s : Bytes) (x : UInt8) (h : x ∈ subStartAnyComment s) : x ∈ s := by
+  rcases subStartAnyComment_cases s with ⟨_, e⟩ | ⟨n, c, r, _, rfl, e⟩
+  · rwa [e] at h
+  · rw [e] at h; exact List.mem_append_right _ h
+
+theorem spacesThenComment_subStartAnyComment (s : Bytes) :
+    spacesThenComment (subStartAnyComment s) = (spacesThenComment s).map (fun p => (0, p.2)) := by
+  rcases subStartAnyComment_cases s with ⟨h, e⟩ | ⟨n, c, r, hc, rfl, e⟩
+  · rw [e, h]; rfl
+  · have := spacesThenComment_comment 0 c r hc
+    simp only [List.replicate_zero, List.nil_append] at this
+    rw [e, this, spacesThenComment_comment n c r hc]; rfl
+
+theorem NoSpLF_subStartAnyComment (s : Bytes) (h : NoSpLF s) : NoSpLF (subStartAnyComment s) := by
+  rcases subStartAnyComment_cases s with ⟨_, e⟩ | ⟨n, c, r, hc, rfl, e⟩
+  · rwa [e]
+  · rw [e]
+    rwa [NoSpLF_sp_append _ _ (by simp [hc.ne10])] at h
+
 /-! ### `subLineComment` -/
 
 @[simp] theorem slc_nil (ind : Bytes) : subLineComment ind [] = [] := by rw [subLineComment]
@@ -547,27 +702,27 @@ theorem slc_cons_ne (ind : Bytes) (b : UInt8) (r : Bytes) (h : b ≠ 10) :
     subLineComment ind (b :: r) = b :: subLineComment ind r := by
   rw [subLineComment]; simp [h]
 
-theorem slc_lf_none (ind r : Bytes) (h : spacesThenDashes r = none) :
+theorem slc_lf_none (ind r : Bytes) (h : spacesThenComment r = none) :
     subLineComment ind (10 :: r) = 10 :: subLineComment ind r := by
   rw [subLineComment]; simp [h]
 
-theorem slc_lf_comment (ind : Bytes) (n : Nat) (r : Bytes) :
-    subLineComment ind (10 :: (List.replicate n 32 ++ 45 :: 45 :: r)) = 10 :: (ind ++ 45 :: 45 :: subLineComment ind r) := by
+theorem slc_lf_comment (ind : Bytes) (n : Nat) (c : UInt8) (r : Bytes) (hc : Mk c) :
+    subLineComment ind (10 :: (List.replicate n 32 ++ c :: c :: r)) = 10 :: (ind ++ c :: c :: subLineComment ind r) := by
   rw [subLineComment]
-  simp only [if_true, spacesThenDashes_comment, drop_comment]
+  simp only [if_true, spacesThenComment_comment n c r hc, drop_comment]
   simp
 
 theorem slc_induction {motive : Bytes → Prop} (nil : motive [])
     (other : ∀ b r, b ≠ 10 → motive r → motive (b :: r))
-    (comment : ∀ n r, motive r → motive (10 :: (List.replicate n 32 ++ 45 :: 45 :: r)))
-    (lf : ∀ r, spacesThenDashes r = none → motive r → motive (10 :: r)) : ∀ s, motive s := by
+    (comment : ∀ n c r, Mk c → motive r → motive (10 :: (List.replicate n 32 ++ c :: c :: r)))
+    (lf : ∀ r, spacesThenComment r = none → motive r → motive (10 :: r)) : ∀ s, motive s := by
   intro s
   induction s using subLineComment.induct with
   | case1 => exact nil
-  | case2 rest n h ih =>
-    obtain ⟨r, rfl⟩ := spacesThenDashes_some rest n h
+  | case2 rest n m h ih =>
+    obtain ⟨c, r, hc, _, rfl⟩ := spacesThenComment_some rest n m h
     rw [drop_comment] at ih
-    exact comment n r ih
+    exact comment n c r hc ih
   | case3 rest h ih => exact lf rest h ih
   | case4 b rest hb ih => exact other b rest hb ih
 
@@ -580,7 +735,7 @@ theorem slc_lf_sp (ind : Bytes) (k : Nat) :
     subLineComment ind (10 :: List.replicate k 32) = 10 :: List.replicate k 32 := by
   rw [slc_lf_none, slc_no_lf]
   · simp
-  · have := spacesThenDashes_sp k [] (by simp); simpa using this
+  · have := spacesThenComment_sp k [] (by simp); simpa using this
 
 /-- compositional in front of a line feed -/
 theorem slc_append_lf (ind a t : Bytes) :
@@ -588,17 +743,20 @@ theorem slc_append_lf (ind a t : Bytes) :
   induction a using slc_induction with
   | nil => simp
   | other b r hb ih => rw [List.cons_append, slc_cons_ne _ _ _ hb, slc_cons_ne _ _ _ hb, ih, List.cons_append]
-  | comment n r ih =>
-    rw [List.cons_append, List.append_assoc, List.cons_append, List.cons_append, slc_lf_comment, slc_lf_comment, ih]
+  | comment n c r hc ih =>
+    rw [List.cons_append, List.append_assoc, List.cons_append, List.cons_append, slc_lf_comment _ _ _ _ hc,
+      slc_lf_comment _ _ _ _ hc, ih]
     simp
   | lf r h ih =>
     rw [List.cons_append, slc_lf_none _ _ h, slc_lf_none, ih, List.cons_append]
-    rw [spacesThenDashes_append_lf, h]
+    rw [spacesThenComment_append_lf, h]
 
 theorem slc_lf_head (ind t : Bytes) : ∃ t', subLineComment ind (10 :: t) = 10 :: t' := by
-  cases h : spacesThenDashes t with
+  cases h : spacesThenComment t with
   | none => exact ⟨_, slc_lf_none ind t h⟩
-  | some n => obtain ⟨r, rfl⟩ := spacesThenDashes_some t n h; exact ⟨_, slc_lf_comment ind n r⟩
+  | some p =>
+    obtain ⟨n, m⟩ := p
+    obtain ⟨c, r, hc, _, rfl⟩ := spacesThenComment_some t n m h; exact ⟨_, slc_lf_comment ind n c r hc⟩
 
 /-- the first line is not rewritten -/
 theorem spacesThenDashes_slc (ind s : Bytes) : spacesThenDashes (subLineComment ind s) = spacesThenDashes s := by
@@ -612,6 +770,17 @@ theorem spacesThenDashes_slc (ind s : Bytes) : spacesThenDashes (subLineComment 
     obtain ⟨t', e⟩ := slc_lf_head ind z
     rw [slc_append_lf, slc_no_lf _ _ ht', e, spacesThenDashes_append_lf, spacesThenDashes_append_lf]
 
+theorem spacesThenComment_slc (ind s : Bytes) : spacesThenComment (subLineComment ind s) = spacesThenComment s := by
+  obtain ⟨t, z, rfl, ht, hz⟩ := head_decomp (· != 10) s
+  have ht' : (10 : UInt8) ∉ t := fun h => by simpa using ht 10 h
+  cases z with
+  | nil => rw [List.append_nil, slc_no_lf _ _ ht']
+  | cons c z =>
+    have : c = 10 := by simpa using hz c rfl
+    subst this
+    obtain ⟨t', e⟩ := slc_lf_head ind z
+    rw [slc_append_lf, slc_no_lf _ _ ht', e, spacesThenComment_append_lf, spacesThenComment_append_lf]
+
 theorem mem_slc (ind s : Bytes) (x : UInt8) (h : x ∈ subLineComment ind s) : x ∈ s ∨ x ∈ ind := by
   induction s using slc_induction with
   | nil => simp at h
@@ -622,8 +791,8 @@ theorem mem_slc (ind s : Bytes) (x : UInt8) (h : x ∈ subLineComment ind s) : x
     · rcases ih h with h | h
       · exact Or.inl (Or.inr h)
       · exact Or.inr h
-  | comment n r ih =>
-    rw [slc_lf_comment] at h; simp at h ⊢
+  | comment n c r hc ih =>
+    rw [slc_lf_comment _ _ _ _ hc] at h; simp at h ⊢
     rcases h with h | h | h | h
     · exact Or.inl (Or.inl h)
     · exact Or.inr h
@@ -653,27 +822,27 @@ theorem NoSpLF_slc (m : Nat) (s : Bytes) (h : NoSpLF s) : NoSpLF (subLineComment
       by_cases hc : c = 10
       · simp [hc]
       · rw [slc_cons_ne _ _ _ hc] at hr; simp at hr; exact absurd hr hc
-  | comment n r ih =>
-    rw [slc_lf_comment]
+  | comment n c r hc ih =>
+    rw [slc_lf_comment _ _ _ _ hc]
     have h2 := h.2
-    rw [NoSpLF_sp_append _ _ (by simp)] at h2
+    rw [NoSpLF_sp_append _ _ (by simp [hc.ne10])] at h2
     refine ⟨by simp, ?_⟩
-    rw [NoSpLF_sp_append _ _ (by simp)]
-    exact ⟨by simp, by simp, ih h2.2.2⟩
+    rw [NoSpLF_sp_append _ _ (by simp [hc.ne10])]
+    exact ⟨by simp [hc.ne32], by simp [hc.ne32], ih h2.2.2⟩
   | lf r hr ih =>
     rw [slc_lf_none _ _ hr]
     exact ⟨by simp, ih h.2⟩
 
 /-! ### comment lines are indented by `m` -/
 
-/-- every `<LF> <spaces> --` has exactly `m` spaces -/
+/-- every `<LF> <spaces> --` and `<LF> <spaces> //` has exactly `m` spaces -/
 def LineOK (m : Nat) : Bytes → Prop
   | [] => True
-  | b :: r => (b = 10 → ∀ n, spacesThenDashes r = some n → n = m) ∧ LineOK m r
+  | b :: r => (b = 10 → ∀ n mk, spacesThenComment r = some (n, mk) → n = m) ∧ LineOK m r
 
 @[simp] theorem LineOK_nil (m : Nat) : LineOK m [] := trivial
 theorem LineOK_cons (m : Nat) (b : UInt8) (r : Bytes) :
-    LineOK m (b :: r) ↔ (b = 10 → ∀ n, spacesThenDashes r = some n → n = m) ∧ LineOK m r := Iff.rfl
+    LineOK m (b :: r) ↔ (b = 10 → ∀ n mk, spacesThenComment r = some (n, mk) → n = m) ∧ LineOK m r := Iff.rfl
 
 theorem LineOK_cons_ne (m : Nat) (c : UInt8) (r : Bytes) (h : c ≠ 10) : LineOK m (c :: r) ↔ LineOK m r := by
   show _ ∧ _ ↔ _
@@ -684,48 +853,48 @@ theorem LineOK_sp_append (m n : Nat) (x : Bytes) : LineOK m (List.replicate n 32
   | zero => simp
   | succ n ih => rw [List.replicate_succ, List.cons_append, LineOK_cons_ne _ _ _ (by decide), ih]
 
-theorem LineOK_nodash (m : Nat) (t : Bytes) (h : (45 : UInt8) ∉ t) : LineOK m t := by
+theorem NoMark_tail {c : UInt8} {t : Bytes} (h : NoMark (c :: t)) : NoMark t :=
+  ⟨fun h' => h.1 (List.mem_cons_of_mem _ h'), fun h' => h.2 (List.mem_cons_of_mem _ h')⟩
+
+theorem LineOK_nomark (m : Nat) (t : Bytes) (h : NoMark t) : LineOK m t := by
   induction t with
   | nil => trivial
   | cons c t ih =>
-    simp at h
-    refine ⟨?_, ih h.2⟩
-    intro _ n hn
-    have := spacesThenDashes_append_nodash [] t h.2
-    rw [List.nil_append, hn] at this
-    have h0 := spacesThenDashes_sp 0 [] (by simp)
-    simp at h0
-    rw [h0] at this; simp at this
+    refine ⟨?_, ih (NoMark_tail h)⟩
+    intro _ n mk hn
+    have := spacesThenComment_append_nomark [] t (NoMark_tail h)
+    rw [List.nil_append, hn, spacesThenComment_nil] at this
+    simp at this
 
-theorem LineOK_append_nodash (m : Nat) (a t : Bytes) (h : (45 : UInt8) ∉ t) : LineOK m (a ++ t) ↔ LineOK m a := by
+theorem LineOK_append_nomark (m : Nat) (a t : Bytes) (h : NoMark t) : LineOK m (a ++ t) ↔ LineOK m a := by
   induction a with
-  | nil => simp [LineOK_nodash m t h]
+  | nil => simp [LineOK_nomark m t h]
   | cons c a ih =>
-    rw [List.cons_append, LineOK_cons, LineOK_cons, ih, spacesThenDashes_append_nodash a t h]
+    rw [List.cons_append, LineOK_cons, LineOK_cons, ih, spacesThenComment_append_nomark a t h]
 
 theorem LineOK_slc (m : Nat) (s : Bytes) : LineOK m (subLineComment (List.replicate m 32) s) := by
   induction s using slc_induction with
   | nil => simp
   | other b r hb ih => rw [slc_cons_ne _ _ _ hb, LineOK_cons_ne _ _ _ hb]; exact ih
-  | comment n r ih =>
-    rw [slc_lf_comment]
+  | comment n c r hc ih =>
+    rw [slc_lf_comment _ _ _ _ hc]
     refine ⟨?_, ?_⟩
-    · intro _ k hk; rw [spacesThenDashes_comment] at hk; simp at hk; exact hk.symm
-    · rw [LineOK_sp_append, LineOK_cons_ne _ _ _ (by decide), LineOK_cons_ne _ _ _ (by decide)]; exact ih
+    · intro _ k mk hk; rw [spacesThenComment_comment _ _ _ hc] at hk; simp at hk; exact hk.1.symm
+    · rw [LineOK_sp_append, LineOK_cons_ne _ _ _ hc.ne10, LineOK_cons_ne _ _ _ hc.ne10]; exact ih
   | lf r hr ih =>
     rw [slc_lf_none _ _ hr]
     refine ⟨?_, ih⟩
-    intro _ k hk; rw [spacesThenDashes_slc, hr] at hk; simp at hk
+    intro _ k mk hk; rw [spacesThenComment_slc, hr] at hk; simp at hk
 
 theorem slc_of_LineOK (m : Nat) (s : Bytes) (h : LineOK m s) : subLineComment (List.replicate m 32) s = s := by
   induction s using slc_induction with
   | nil => simp
   | other b r hb ih => rw [slc_cons_ne _ _ _ hb, ih ((LineOK_cons_ne _ _ _ hb).mp h)]
-  | comment n r ih =>
-    have hn := h.1 rfl n (spacesThenDashes_comment n r)
+  | comment n c r hc ih =>
+    have hn := h.1 rfl n _ (spacesThenComment_comment n c r hc)
     have h2 := h.2
-    rw [LineOK_sp_append, LineOK_cons_ne _ _ _ (by decide), LineOK_cons_ne _ _ _ (by decide)] at h2
-    rw [slc_lf_comment, ih h2, hn]
+    rw [LineOK_sp_append, LineOK_cons_ne _ _ _ hc.ne10, LineOK_cons_ne _ _ _ hc.ne10] at h2
+    rw [slc_lf_comment _ _ _ _ hc, ih h2, hn]
   | lf r hr ih => rw [slc_lf_none _ _ hr, ih h.2]
 
 /-! ### `subFinalIndent` -/
@@ -774,6 +943,14 @@ theorem NoSpLF_subFinalIndent (m : Nat) (s : Bytes) (h : NoSpLF s) : NoSpLF (sub
 
 theorem not_dash_sp (k : Nat) : (45 : UInt8) ∉ List.replicate k (32 : UInt8) := by simp
 
+theorem noMark_sp (k : Nat) : NoMark (List.replicate k (32 : UInt8)) := ⟨by simp, by simp⟩
+
+theorem spacesThenComment_subFinalIndent (m : Nat) (s : Bytes) :
+    spacesThenComment (subFinalIndent (List.replicate m 32) s) = spacesThenComment s := by
+  obtain ⟨pre, k, rfl, _, ⟨_, e⟩ | ⟨_, e⟩⟩ := subFinalIndent_cases (List.replicate m 32) s
+  · rw [e, spacesThenComment_append_nomark _ _ (noMark_sp m), spacesThenComment_append_nomark _ _ (noMark_sp k)]
+  · rw [e]
+
 theorem spacesThenDashes_subFinalIndent (m : Nat) (s : Bytes) :
     spacesThenDashes (subFinalIndent (List.replicate m 32) s) = spacesThenDashes s := by
   obtain ⟨pre, k, rfl, _, ⟨_, e⟩ | ⟨_, e⟩⟩ := subFinalIndent_cases (List.replicate m 32) s
@@ -782,7 +959,7 @@ theorem spacesThenDashes_subFinalIndent (m : Nat) (s : Bytes) :
 
 theorem LineOK_subFinalIndent (m m' : Nat) (s : Bytes) (h : LineOK m s) : LineOK m (subFinalIndent (List.replicate m' 32) s) := by
   obtain ⟨pre, k, rfl, _, ⟨_, e⟩ | ⟨_, e⟩⟩ := subFinalIndent_cases (List.replicate m' 32) s
-  · rw [e, LineOK_append_nodash _ _ _ (not_dash_sp m')]; exact (LineOK_append_nodash _ _ _ (not_dash_sp k)).mp h
+  · rw [e, LineOK_append_nomark _ _ _ (noMark_sp m')]; exact (LineOK_append_nomark _ _ _ (noMark_sp k)).mp h
   · rwa [e]
 
 theorem subFinalIndent_idem (ind s : Bytes) (hind : ∃ m, ind = List.replicate m 32) :
@@ -881,6 +1058,18 @@ theorem spacesThenDashes_collapseLF (s : Bytes) : spacesThenDashes (collapseLF s
     rw [collapseLF_append, collapseLF_no_lf _ ht', e, spacesThenDashes_append_lf, spacesThenDashes_append_lf]
     intro hl; exact absurd (List.mem_of_getLast? hl) ht'
 
+theorem spacesThenComment_collapseLF (s : Bytes) : spacesThenComment (collapseLF s) = spacesThenComment s := by
+  obtain ⟨t, z, rfl, ht, hz⟩ := head_decomp (· != 10) s
+  have ht' : (10 : UInt8) ∉ t := fun h => by simpa using ht 10 h
+  cases z with
+  | nil => rw [List.append_nil, collapseLF_no_lf _ ht']
+  | cons c z =>
+    have : c = 10 := by simpa using hz c rfl
+    subst this
+    obtain ⟨t', e⟩ := collapseLF_lf_head z
+    rw [collapseLF_append, collapseLF_no_lf _ ht', e, spacesThenComment_append_lf, spacesThenComment_append_lf]
+    intro hl; exact absurd (List.mem_of_getLast? hl) ht'
+
 theorem NoSpLF_collapseLF (s : Bytes) (h : NoSpLF s) : NoSpLF (collapseLF s) := by
   induction s using collapseLF.induct with
   | case1 rest ih => rw [collapseLF_lf3]; exact ih h.2
@@ -894,7 +1083,7 @@ theorem LineOK_collapseLF (m : Nat) (s : Bytes) (h : LineOK m s) : LineOK m (col
   | case1 rest ih => rw [collapseLF_lf3]; exact ih h.2
   | case2 b rest hb ih =>
     rw [collapseLF.eq_2 b rest hb]
-    exact ⟨by rw [spacesThenDashes_collapseLF]; exact h.1, ih h.2⟩
+    exact ⟨by rw [spacesThenComment_collapseLF]; exact h.1, ih h.2⟩
   | case3 => simp
 
 /-! ### no three line feeds in a row -/
@@ -1025,6 +1214,12 @@ theorem not_dash_of_ws (t : Bytes) (ht : ∀ x ∈ t, x = 32 ∨ x = 10) : (45 :
 theorem not_dash_trail (t : Bytes) : (45 : UInt8) ∉ (if t.contains 10 then [10] else ([] : Bytes)) := by
   split <;> simp
 
+theorem noMark_of_ws (t : Bytes) (ht : ∀ x ∈ t, x = 32 ∨ x = 10) : NoMark t := by
+  constructor <;> intro h <;> rcases ht _ h with h | h <;> simp at h
+
+theorem noMark_trail (t : Bytes) : NoMark (if t.contains 10 then [10] else ([] : Bytes)) := by
+  constructor <;> split <;> simp
+
 theorem NoSpLF_subTrailing (s : Bytes) (h : NoSpLF s) : NoSpLF (subTrailing s) := by
   obtain ⟨pre, t, rfl, hp, _, e⟩ := subTrailing_cases s
   rw [e, NoSpLF_append]
@@ -1043,12 +1238,16 @@ theorem NoTriple_subTrailing (s : Bytes) (h : NoTriple s) : NoTriple (subTrailin
 
 theorem LineOK_subTrailing (m : Nat) (s : Bytes) (h : LineOK m s) : LineOK m (subTrailing s) := by
   obtain ⟨pre, t, rfl, _, ht, e⟩ := subTrailing_cases s
-  rw [e, LineOK_append_nodash _ _ _ (not_dash_trail t)]
-  exact (LineOK_append_nodash _ _ _ (not_dash_of_ws t ht)).mp h
+  rw [e, LineOK_append_nomark _ _ _ (noMark_trail t)]
+  exact (LineOK_append_nomark _ _ _ (noMark_of_ws t ht)).mp h
 
 theorem spacesThenDashes_subTrailing (s : Bytes) : spacesThenDashes (subTrailing s) = spacesThenDashes s := by
   obtain ⟨pre, t, rfl, _, ht, e⟩ := subTrailing_cases s
   rw [e, spacesThenDashes_append_nodash _ _ (not_dash_trail t), spacesThenDashes_append_nodash _ _ (not_dash_of_ws t ht)]
+
+theorem spacesThenComment_subTrailing (s : Bytes) : spacesThenComment (subTrailing s) = spacesThenComment s := by
+  obtain ⟨pre, t, rfl, _, ht, e⟩ := subTrailing_cases s
+  rw [e, spacesThenComment_append_nomark _ _ (noMark_trail t), spacesThenComment_append_nomark _ _ (noMark_of_ws t ht)]
 
 /-! ### `normBreaks` -/
 
@@ -1106,10 +1305,10 @@ theorem normBreaks_lf_cons (b : Bytes) : ∃ b', normBreaks (10 :: b) = 10 :: b'
   rw [hz, subCR_cons, if_neg (by decide)]
   exact ⟨_, rfl⟩
 
-theorem normBreaks_dashes (b : Bytes) : normBreaks (45 :: 45 :: b) = 45 :: 45 :: normBreaks b := by
+theorem normBreaks_marker (c : UInt8) (b : Bytes) (hc : Mk c) : normBreaks (c :: c :: b) = c :: c :: normBreaks b := by
   unfold normBreaks
-  rw [subTab_cons, subTab_cons, if_neg (by decide), subCRLF_cons_ne _ _ (by decide), subCRLF_cons_ne _ _ (by decide),
-    subLFCR_cons_ne _ _ (by decide), subLFCR_cons_ne _ _ (by decide), subCR_cons, subCR_cons, if_neg (by decide)]
+  rw [subTab_cons, subTab_cons, if_neg hc.ne9, subCRLF_cons_ne _ _ hc.ne13, subCRLF_cons_ne _ _ hc.ne13,
+    subLFCR_cons_ne _ _ hc.ne10, subLFCR_cons_ne _ _ hc.ne10, subCR_cons, subCR_cons, if_neg hc.ne13]
 
 theorem normBreaks_clean (s : Bytes) (x : UInt8) (h : x ∈ normBreaks s) : x ≠ 9 ∧ x ≠ 13 := by
   unfold normBreaks at h
